@@ -15,7 +15,8 @@ CONFIG = {'assumptions': [
     'unknown STANDARD opcodes (13 <= op < opcode_base), DW_FORM_strx* in v5 tables, vendor content types '
     'without a name in ENUM_DW_LNCT, DW_LNE_define_file in a version 5 program and extended instructions '
     'whose declared length differs from their operands are outside the property (DESIGN 5)',
-    'line_program_for_CU: the unit and its line program use the same DWARF format and address size',
+    'line_program_for_CU: the unit and its line program use the same DWARF format and address size; the DWARF '
+    'version of the unit is free (units of different versions may share one table: same program, same rows)',
     'unit_length < 2^32 - 16 (32-bit format) and header_length representable: generated units are a few KB',
     'real objects: llvm-dwarfdump 14 is the reference consumer; its rows were computed when the corpus was built, '
     'the check itself runs no external tool']}
